@@ -28,6 +28,7 @@ Fixpoint run_items_off (items:list bitem) : bool :=
   | BRaise :: _ => true
   | BStmt _ :: r => run_items_off r
   | BAuto xs :: r => run_autos_off xs || run_items_off r
+  | BTry _ :: r => run_items_off r
   end.
 Definition run_step_off (sp:step) : bool := run_items_off (s_body sp) || s_cb_raises sp.
 
